@@ -367,6 +367,50 @@ pub fn ref_node_count(kind: BKind, t: &TT, order: &[u32]) -> usize {
     }
 }
 
+/// Number of distinct inner nodes in the shared reduced diagram of all `tables`
+/// under `order` (what a manager holds after a garbage collection when exactly
+/// these functions are referenced).
+pub fn ref_inner_nodes(kind: BKind, tables: &[TT], order: &[u32]) -> usize {
+    let mut inner: HashSet<TT> = HashSet::new();
+    fn go(kind: BKind, t: TT, lvl: usize, order: &[u32], inner: &mut HashSet<TT>) {
+        match kind {
+            BKind::Bdd | BKind::Bcdd => {
+                if t.is_zero() || t.is_one() {
+                    return;
+                }
+                let mut l = lvl;
+                while !t.depends(order[l]) {
+                    l += 1;
+                }
+                let key = if kind == BKind::Bcdd && t.get(0) { t.not() } else { t };
+                if !inner.insert(key) {
+                    return;
+                }
+                go(kind, t.cof(order[l], true), l + 1, order, inner);
+                go(kind, t.cof(order[l], false), l + 1, order, inner);
+            }
+            BKind::Zbdd => {
+                if t.is_zero() || (t.popcount() == 1 && t.get(0)) {
+                    return;
+                }
+                let mut l = lvl;
+                while t.zcof(order[l], true).is_zero() {
+                    l += 1;
+                }
+                if !inner.insert(t) {
+                    return;
+                }
+                go(kind, t.zcof(order[l], true), l + 1, order, inner);
+                go(kind, t.zcof(order[l], false), l + 1, order, inner);
+            }
+        }
+    }
+    for t in tables {
+        go(kind, *t, 0, order, &mut inner);
+    }
+    inner.len()
+}
+
 /// All permutations of 0..n
 pub fn permutations(n: u32) -> Vec<Vec<u32>> {
     fn go(cur: &mut Vec<u32>, used: &mut Vec<bool>, n: u32, out: &mut Vec<Vec<u32>>) {
